@@ -38,6 +38,11 @@ Definition vp_setitem (vp : viewport) (m : matrix) (rq : wreq) : res matrix :=
   let '(yi, xi) := vp_convert_slice vp (rq_y rq, rq_x rq) in
   mat_setitem m yi xi (rq_data rq).
 
+(* GraphicsViewPort.__getitem__ for a single pixel at viewport coordinates (x, y): absolute position by
+   _convert_coords ("single pixel read can go outside of viewport"), then the page cell; None = off the page *)
+Definition vp_cell (vp : viewport) (m : matrix) (x y : Z) : option Z :=
+  let '(ax, ay) := vp_convert_coords vp x y in cellZ m ay ax.
+
 Fixpoint vp_run (vp : viewport) (m : matrix) (rqs : list wreq) : res matrix :=
   match rqs with
   | [] => Ok m
